@@ -157,7 +157,9 @@ C14_Close ==
           /\ ev.fn = "cancel_allocation" => /\ ev.now <= pa.exp
                                             /\ ev.from = pa.owner
           /\ refund >= 0 /\ spent >= 0
-          /\ spent <= SumIV(pa.bas, 1) + pa.ccap                   \* blobbers: at most challenge value + charge
+          \* blobbers get at most the outstanding challenge value + the cancellation charge; an enterprise
+          \* allocation has no challenge pool: its blobbers are paid from the write pool, at most its cost
+          /\ spent <= (IF pa.ent THEN pa.cost + Len(pa.bas) ELSE SumIV(pa.bas, 1) + pa.ccap)
           /\ Credited(pa.bas, 1) <= spent                         \* nothing credited beyond what the owner paid
 C14_Once == \A n \in DOMAIN closes : closes[n] <= 1
 AllocFns == {"finalize_allocation", "cancel_allocation", "write_pool_lock", "commit_connection", "challenge_response",
